@@ -24,7 +24,7 @@ CONFIG = dict(
     required_theorems=["routed_to_named", "routed_to_the_instance", "no_instance_no_send_one_callback", "default_is_working",
                        "helpers_report", "directory_any_map_order", "lookup_is_view", "after_any_history", "calls_use_latest_view",
                        "malformed_route_no_send", "unknown_type_no_send", "never_dropped_never_unannounced", "default_is_working_unique",
-                       "d5_prefix_drops_callback", "nested_route_is_transparent", "nested_routed_by_outer_key", "empty_map_is_a_map"],
+                       "d5_prefix_drops_callback", "nested_route_is_transparent", "nested_routed_by_outer_key", "empty_map_is_a_map", "null_value_is_present"],
     harness_pkg="./c07",
     mode="accept",
     reset_prefix="reset",
@@ -35,12 +35,12 @@ CONFIG = dict(
                      dict(name="seed3", env={"VERIF_N": "600000"}, seed_offset=2000, timeout=800)],
     },
     trivial=r"^(ok|ok default=[01]|bad-op)?$",
-    rule="hand-written corpus, then a bounded exhaustive grid (9 views x 17 rule behaviours x 25 parameters x 9 route strings x request/notify, plus "
+    rule="hand-written corpus, then a bounded exhaustive grid (9 views x 17 rule behaviours x 32 parameters x 9 route strings x request/notify, plus "
          "RoutePID/Route per parameter and QuerySession/Kick/GetServicePID per front name: ~35k ops), then op lines generated from one PRNG "
          "(VERIF_SEED), cases of 8-18 ops each starting with `reset`: cluster views of 0-4 members "
          "(states 0-5, duplicate node ids, empty hosts, 0-4 services each incl. malformed full names, the three sentinel strings as names, the same "
          "name under two types and on two nodes), later view updates inside a case - fresh views and RE-ARRANGEMENTS of the current one that keep the multiset of nodes and service names (a service migrates, two nodes swap one service / whole lists / states+lists, members re-ordered) each followed by calls aimed at what moved, rule tables per type (const | key | key with a default instance | nil-aware key function | nest = key function that first routes re-entrantly for another type with a different key map | empty | panic | unregister), `race` ops (one map-routed Route parked inside its route function while a second one runs), "
-         "all parameter kinds (nil, typed nil, session, key map with string / non-string / missing / empty-string values, EMPTY and nil key maps, maps with only irrelevant keys, explicit name, int / map[string]string / "
+         "all parameter kinds (nil, typed nil, session, key map with string / non-string / missing / empty-string / nil (JSON null) / typed-nil / 0 / false / empty-slice values, EMPTY and nil key maps, maps with only irrelevant keys, explicit name, int / map[string]string / "
          "slice / pointer), route strings with 0-4 dots and empty parts, Request/Notify/QuerySession/Kick with and without callback, plus pure "
          "Route/RoutePID/GetServicePID/GetWorkServicePID/GetFirstWorkService/SplitClientRoute probes; the last tenth of the cases runs with the "
          "default route function removed; a case is non-trivial when the observation is not a bare `ok`; distinct = distinct (op, observation) pairs",
